@@ -591,15 +591,49 @@ fn boundary_durations() -> Vec<u128> {
         v.extend([top - 1, top, top + 1, top + per - 1, top + per, top + per + 1]);
     }
     v.extend([FMT_LIMIT - 3_600_000_000_000, FMT_LIMIT - 1, FMT_LIMIT, FMT_LIMIT + 1, Duration::MAX.as_nanos()]);
+    v.extend(wrap_candidates());
     v.sort();
     v.dedup();
     v.retain(|x| *x <= Duration::MAX.as_nanos());
+    v
+}
+/// Durations at which a narrowing cast in some branch of the cascade would wrap: the value in a
+/// unit (d.as_nanos(), d.as_micros(), d.as_millis(), d.as_secs(), minutes, hours) equal to
+/// k * 2^w + delta for w in 32, 63, 64, so that a check done in u32 / i64 / u64 sees a small
+/// number (e.g. 2^64 + 5 ns, about 584.5 years, written as "5n").
+fn wrap_candidates() -> Vec<u128> {
+    let mut v = vec![];
+    let deltas: [u128; 10] = [0, 1, 5, 9, 99_999_998, 99_999_999, 100_000_000, 100_000_001, 999_999_999, 4_294_967_295];
+    for (_, per) in UNITS {
+        for w in [32u32, 63, 64] {
+            let base = 1u128 << w;
+            let ks: Vec<u128> = if w == 64 { (1..=19).collect() } else { vec![1, 2, 3, 1000, 4_294_967_296 + 7] };
+            for k in ks {
+                for d in deltas {
+                    let val = k.saturating_mul(base).saturating_add(d);
+                    // the duration whose value in this unit is val, at the start, inside and at the end of the unit
+                    let x = val.saturating_mul(*per);
+                    v.extend([x, x.saturating_add(per / 2), x.saturating_add(per - 1)]);
+                }
+                // just below the wrap point
+                let y = k.saturating_mul(base) - 1;
+                v.extend([y.saturating_mul(*per), y.saturating_mul(*per).saturating_add(per - 1), (y - 99_999_999).saturating_mul(*per)]);
+            }
+        }
+    }
     v
 }
 fn random_duration(r: &mut Rng) -> u128 {
     // log-uniform over the whole writable range and a little beyond
     let bits = r.range(0, 69);
     let x = ((r.next() as u128) << 64 | r.next() as u128) & ((1u128 << bits) - 1).max(1);
+    if r.chance(1, 8) {
+        // a multiple of 2^64 or 2^32 in a random unit plus a small remainder
+        let per = UNITS[r.below(6) as usize].1;
+        let base = if r.chance(1, 2) { 1u128 << 64 } else { 1u128 << 32 };
+        let y = (r.range(1, 19) as u128 * base + r.below(200_000_000) as u128) * per + r.below(per as u64) as u128;
+        return y.min(Duration::MAX.as_nanos());
+    }
     x.min(Duration::MAX.as_nanos())
 }
 fn digits(pattern: u64, n: usize, r: &mut Rng) -> Vec<u8> {
@@ -978,7 +1012,7 @@ fn replay(out: &mut Out, file: &str) {
     }
 }
 
-const RULE: &str = "fmt: Request::set_timeout(d) for d at 10^k-1, 10^k, 10^k+1 (ns and one unit either side) in every unit, the switch-over points 99999999 x unit, the largest writable duration, beyond it, Duration::MAX, and log-uniform random d; non-trivial = d below 100000000 h. parse: the hook parser on unit (6 valid, 12 invalid) x digit count 0..9 x digit pattern x sign/space prefix x space infix x trailing junk, plus arbitrary legal header bytes incl. obs-text, repeated and absent headers; non-trivial = a non-empty grpc-timeout value. run: unary tonic Channel -> tonic Server over tokio::io::duplex in paused time, (caller timeout | raw header, Endpoint::timeout, Server::timeout, handler latency) on a grid around every boundary incl. sub-millisecond limits. srv_only: raw hyper client (sends grpc-timeout, enforces nothing) -> tonic Server; cli_only: tonic Channel -> stub hyper server that ignores grpc-timeout; full: both real; none: neither; each as unary, *.stream (server stream: head, then n messages gap apart) and *.late_body (unary response whose message follows its head late) on the same grid; the oracle is strict whenever head and deadline fall into different ticks, checks the handler is dropped when the call is cut, and flags calls that outlast their deadline after an in-time head (F-C09b / F-C09c, known findings). Non-trivial = some deadline in force. Distinct = distinct (kind, model expression).";
+const RULE: &str = "fmt: Request::set_timeout(d) for d at 10^k-1, 10^k, 10^k+1 (ns and one unit either side) in every unit, the switch-over points 99999999 x unit, the largest writable duration, beyond it, Duration::MAX, wrap candidates of narrowing casts (value in each unit = k*2^w + delta for w = 32, 63, 64, k = 1..19), and log-uniform random d; non-trivial = d below 100000000 h. parse: the hook parser on unit (6 valid, 12 invalid) x digit count 0..9 x digit pattern x sign/space prefix x space infix x trailing junk, plus arbitrary legal header bytes incl. obs-text, repeated and absent headers; non-trivial = a non-empty grpc-timeout value. run: unary tonic Channel -> tonic Server over tokio::io::duplex in paused time, (caller timeout | raw header, Endpoint::timeout, Server::timeout, handler latency) on a grid around every boundary incl. sub-millisecond limits. srv_only: raw hyper client (sends grpc-timeout, enforces nothing) -> tonic Server; cli_only: tonic Channel -> stub hyper server that ignores grpc-timeout; full: both real; none: neither; each as unary, *.stream (server stream: head, then n messages gap apart) and *.late_body (unary response whose message follows its head late) on the same grid; the oracle is strict whenever head and deadline fall into different ticks, checks the handler is dropped when the call is cut, and flags calls that outlast their deadline after an in-time head (F-C09b / F-C09c, known findings). Non-trivial = some deadline in force. Distinct = distinct (kind, model expression).";
 
 fn main() {
     let a = args();
